@@ -11,7 +11,8 @@
 (***************************************************************************)
 EXTENDS Machine, Programs, Json, SequencesExt
 
-CONSTANTS MaxOps, Reinstantiate
+CONSTANTS MaxOps, Reinstantiate,
+          Family      \* "main": the world below with all operations; "patch": two libraries that import (counter) alone and assign an imported name
 
 Inc(x) == Set(x, Call("+", <<Var(x), Num(1)>>))
 Thunk(body) == Lam(<<>>, "", <<>>, body)
@@ -52,7 +53,21 @@ World ==
                  body |-> <<Define("bare-leak", Thunk(<<Var("importer-var")>>)),
                             Define("bare-set", Thunk(<<Set("importer-var", Num(0))>>))>>,
                  exports |-> << <<"bare-leak", "bare-leak">>, <<"bare-set", "bare-set">> >>])
-LibNames == {"counter", "user", "top", "bare"}
+  \* two libraries whose only import is (counter) (written as a declaration of its own: solo).  (patcher) ASSIGNS names it
+  \* imported - one at load time, one when patch! is called: what it imported are ITS bindings, so neither (reader), which
+  \* imported the same names the same way, nor the program, nor (counter) itself may notice
+  @@ ("patcher" :> [imports |-> <<"counter">>, solo |-> TRUE,
+                    body |-> <<Define("patch!", Thunk(<<Set("peek", Thunk(<<Quote(MkSym("patched"))>>))>>)),
+                               Define("patched-peek", Thunk(<<Call("peek", <<>>)>>)),
+                               Define("patched-show", Thunk(<<Call("show", <<>>)>>)),
+                               Set("show", Thunk(<<Quote(MkSym("patched-at-load"))>>))>>,
+                    exports |-> << <<"patch!", "patch!">>, <<"patched-peek", "patched-peek">>, <<"patched-show", "patched-show">> >>])
+  @@ ("reader" :> [imports |-> <<"counter">>, solo |-> TRUE,
+                   body |-> <<Define("read-peek", Thunk(<<Call("peek", <<>>)>>)),
+                              Define("read-show", Thunk(<<Call("show", <<>>)>>)),
+                              Define("read-next", Thunk(<<Call("next!", <<>>)>>))>>,
+                   exports |-> << <<"read-peek", "read-peek">>, <<"read-show", "read-show">>, <<"read-next", "read-next">> >>])
+LibNames == {"counter", "user", "top", "bare", "patcher", "reader"}
 
 RECURSIVE RunSteps(_, _)
 RunSteps(s, fuel) == IF s.status = "done" \/ fuel = 0 THEN s ELSE RunSteps(Step(s), fuel - 1)
@@ -90,12 +105,18 @@ ImportDecl(st, names, pfx) ==
   IN [st1 EXCEPT !.m = Each(st1.m, 1)]
 
 \* ---- programs: one import declaration, then operations
-ImportChoices == { <<<<"counter">>, <<"">>>>, <<<<"user">>, <<"">>>>, <<<<"counter", "user">>, <<"", "">>>>, <<<<"user", "counter">>, <<"", "">>>>,
+MainImportChoices == { <<<<"counter">>, <<"">>>>, <<<<"user">>, <<"">>>>, <<<<"counter", "user">>, <<"", "">>>>, <<<<"user", "counter">>, <<"", "">>>>,
                    <<<<"counter", "counter">>, <<"", "c:">>>>, <<<<"top", "counter">>, <<"", "">>>>, <<<<"counter", "user", "top">>, <<"", "", "">>>>, <<<<"bare", "counter">>, <<"", "">>>> }
-Ops == {Call("next!", <<>>), Call("use-counter", <<>>), Call("peek", <<>>), Call("show", <<>>), Call("leak", <<>>), Call("c:next!", <<>>),
+MainOps == {Call("next!", <<>>), Call("use-counter", <<>>), Call("peek", <<>>), Call("show", <<>>), Call("leak", <<>>), Call("c:next!", <<>>),
         Define("helper", Thunk(<<Quote(MkSym("importer-helper"))>>)), Call("helper", <<>>),
         Define("next!", Thunk(<<Quote(MkSym("fake"))>>)), Define("importer-var", Num(5)),
         Call("bump", <<>>), Var("n"), Call("renamed-bump", <<>>), Var("a-val"), Var("b-val"), Call("get-ab", <<>>), Var("start"), Call("u-peek", <<>>), Call("u-next!", <<>>), Call("top-use", <<>>), Call("bare-leak", <<>>), Call("bare-set", <<>>), Var("importer-var")}
+
+PatchImportChoices == { <<<<"patcher", "reader">>, <<"", "">>>>, <<<<"reader", "patcher", "counter">>, <<"", "", "">>>>, <<<<"counter", "patcher", "reader">>, <<"", "", "">>>> }
+PatchOps == {Call("patch!", <<>>), Call("patched-peek", <<>>), Call("patched-show", <<>>), Call("read-peek", <<>>), Call("read-show", <<>>), Call("read-next", <<>>),
+             Call("peek", <<>>), Call("show", <<>>), Call("next!", <<>>)}
+ImportChoices == IF Family = "patch" THEN PatchImportChoices ELSE MainImportChoices
+Ops == IF Family = "patch" THEN PatchOps ELSE MainOps
 
 VARIABLES imp, st, hist
 vars == <<imp, st, hist>>
@@ -123,12 +144,12 @@ LibraryFramesAreRoots == \A n \in DOMAIN st.insts : st.m.frames[st.insts[n]].par
 \* the state kept inside (counter) is what all importers see: peek equals the number of next!/use-counter/c:next!/renamed-bump calls
 CounterCalls == Len(SelectSeq(hist, LAMBDA h : h.r.k = "value" /\ h.form.t = "app" /\ h.form.f.t = "var"
                                                  /\ h.form.f.x \in {"next!", "use-counter", "c:next!", "renamed-bump"} /\ h.r.v.t = "int"))
-Bumps == {Call(x, <<>>) : x \in {"next!", "use-counter", "c:next!", "renamed-bump", "u-next!", "top-use"}}      \* (when they still denote the library's procedures)
-Peeks == {Call("peek", <<>>), Call("bump", <<>>)}       \* (the importer's bump is the library's peek)
+Bumps == {Call(x, <<>>) : x \in {"next!", "use-counter", "c:next!", "renamed-bump", "u-next!", "top-use", "read-next"}}      \* (when they still denote the library's procedures)
+Peeks == {Call("peek", <<>>), Call("bump", <<>>), Call("read-peek", <<>>)}       \* (the importer's bump is the library's peek)
 SharedState == \A i \in DOMAIN hist :
    (hist[i].form \in Peeks /\ hist[i].r.k = "value") =>
       hist[i].r.v = MkInt(Len(SelectSeq(SubSeq(hist, 1, i), LAMBDA h : h.r.k = "value" /\ h.r.v.t = "int" /\ h.form \in Bumps)))
 Emit == Len(hist) = MaxOps => PrintT(<<"VEC", ToJson([imports |-> imp[1], prefixes |-> imp[2], hist |-> hist,
                                                           world |-> [n \in LibNames |-> [name |-> n, imports |-> World[n].imports, body |-> World[n].body, exports |-> World[n].exports,
-                                                                                          bare |-> ("bare" \in DOMAIN World[n])]]])>>)
+                                                                                          bare |-> ("bare" \in DOMAIN World[n]), solo |-> ("solo" \in DOMAIN World[n])]]])>>)
 =============================================================================
